@@ -75,7 +75,7 @@ def judge(work, rep, c, trace_path, name="judge", timeout=3600):
     return [["FAIL", f["id"], f["name"], f["i"], f["run"], f["k"], f["sig"]] for f in map(json.loads, r.prints("FAIL"))]
 
 
-def execute(work, rep, c, runs, stores, embeds, seed, http=False, keyof=None, tag="t"):
+def execute(work, rep, c, runs, stores, embeds, seed, http=False, keyof=None, tag="t", faults=False):
     """Runs the driver for every (store, embedding) and returns the concatenated trace path."""
     runs_path = work.path("runs-%s.jsonl" % tag)
     write_runs(runs_path, params_of(c, keyof), runs)
@@ -88,6 +88,8 @@ def execute(work, rep, c, runs, stores, embeds, seed, http=False, keyof=None, ta
                         "-workers", str(NCPU), "-dir", work.sub("db")]
                 if http:
                     args.append("-http")
+                if faults:
+                    args.append("-faults")
                 o, dt = run_driver(args)
                 rep.notes.append(o.strip().splitlines()[-1] if o.strip() else "")
                 with open(part) as f:
